@@ -279,6 +279,10 @@ func c18Db(tier string, seed int64, idx int, scratch string) rt.CaseResult {
 			plan[k].b = 1
 		}
 	}
+	if idx%16 == 15 {
+		// one key with a long history on one side of the horizon (or both)
+		plan[0] = []kv{{rng.Intn(3), 1030 + rng.Intn(1400)}, {1030 + rng.Intn(1400), rng.Intn(3)}, {1100, 1100}}[idx/16%3]
+	}
 	var before, after []int
 	for k, p := range plan {
 		for i := 0; i < p.a; i++ {
@@ -319,7 +323,21 @@ func c18Db(tier string, seed int64, idx int, scratch string) rt.CaseResult {
 		}
 		return w.Commit(ctxBg)
 	}
+	// an older transaction that ends before the pass, and a younger one begun right after that end:
+	// the horizon is still the Begin of T, whatever the registry went through
+	older := idx%3 == 1
+	var aTx, cTx fs_db.Tx
+	if older {
+		if aTx, err = env.DB.Begin(ctxBg, verif.IsoLevel(idx/3%4)); err != nil {
+			c.Violate("begin-failed", err.Error(), replay)
+			return c
+		}
+		replay["older_transaction_ended_before_the_pass_then_a_younger_one_begun"] = true
+	}
 	for i := 0; i < len(events); i++ {
+		if i%128 == 0 {
+			rt.Beat()
+		}
 		if events[i] == -1 {
 			tOpen, err = env.DB.Begin(ctxBg, verif.IsoLevel(level))
 			if err != nil {
@@ -343,6 +361,20 @@ func c18Db(tier string, seed int64, idx int, scratch string) rt.CaseResult {
 		}
 		if err := write(ks); err != nil {
 			c.Violate("write-failed", err.Error(), replay)
+			return c
+		}
+	}
+	if older {
+		if idx%2 == 0 {
+			err = aTx.Commit(ctxBg)
+		} else {
+			err = aTx.Rollback(ctxBg)
+		}
+		if err == nil {
+			cTx, err = env.DB.Begin(ctxBg, verif.IsoLevel(idx/12%4))
+		}
+		if err != nil {
+			c.Violate("end-of-open-transaction-failed", err.Error(), replay)
 			return c
 		}
 	}
@@ -422,6 +454,9 @@ func c18Db(tier string, seed int64, idx int, scratch string) rt.CaseResult {
 		err = tOpen.Commit(ctxBg)
 	} else {
 		err = tOpen.Rollback(ctxBg)
+	}
+	if err == nil && cTx != nil {
+		err = cTx.Rollback(ctxBg)
 	}
 	if err != nil {
 		c.Violate("end-of-open-transaction-failed", err.Error(), replay)
